@@ -240,6 +240,7 @@ func prop(c harness.Case) harness.Result {
 		for _, rmap := range maps {
 			cf, refs := cf0, rmap
 			r := &cm.HTMLRenderer{ReferenceMap: refs, SoftBreakBehavior: cf.soft, IgnoreRaw: cf.ignore}
+			total := map[string]int{}
 			for bi, b := range blocks {
 				out := string(r.AppendBlock(nil, b))
 				if strings.ContainsAny(out, "<>&\"'") {
@@ -253,10 +254,25 @@ func prop(c harness.Case) harness.Result {
 							key += " " + a.Name
 						}
 						want[key]++
+						total[key]++
 					}
 				}
 				if err := strict(out, want); err != nil {
 					res.Err = fmt.Errorf("soft=%v ignoreRaw=%v root block %d: %v\n output: %q", cf.soft, cf.ignore, bi, err, out)
+					return res
+				}
+			}
+			// the whole document through Render, twice on the same renderer value
+			// (what a caller who keeps a renderer does): the same grammar, and the
+			// census of all blocks together
+			for pass := 0; pass < 2; pass++ {
+				var buf bytes.Buffer
+				if err := r.Render(&buf, blocks); err != nil {
+					res.Err = fmt.Errorf("soft=%v ignoreRaw=%v Render: %v", cf.soft, cf.ignore, err)
+					return res
+				}
+				if err := strict(buf.String(), total); err != nil {
+					res.Err = fmt.Errorf("soft=%v ignoreRaw=%v Render of the whole document (pass %d): %v\n output: %q", cf.soft, cf.ignore, pass, err, buf.String())
 					return res
 				}
 			}
